@@ -55,6 +55,14 @@ def call_graph(F):
     return g
 
 
+def standalone(F, fn):
+    """Path-based rules analyse a function on its own only if it is a reviewed one: a helper introduced later is inlined into its callers
+    by the path builder and judged there, with the guards / popped state / bounds its callers establish."""
+    from .symx import known_functions
+    b = F.hir.get(fn)
+    return fn in known_functions() or b is None or b.get("is_async") or b.get("kind") not in ("Fn", "AssocFn")
+
+
 def cone(g, roots):
     seen, todo = set(), [r for r in roots if r in g]
     while todo:
@@ -463,7 +471,7 @@ def r_guard(run, F, T, bodies):
     n_fn = 0
     for path in sorted(bodies):
         body = F.hir[path]
-        if body.get("from_expansion"):
+        if body.get("from_expansion") or not standalone(F, path):
             continue
         n_fn += 1
         try:
